@@ -8,6 +8,7 @@ import (
 	"fmt"
 	"os"
 	"path/filepath"
+	"strings"
 
 	abcitypes "github.com/tendermint/tendermint/abci/types"
 
@@ -100,8 +101,63 @@ func emit(run *vh.Run, h appdrv.History, tag string) ([]appdrv.Resp, string) {
 	}
 	run.Dist[tag]++
 	appdrv.TxStats(h, rs, run.Dist)
+	refusedHasNoEffect(run, h, rs)
 	run.AddCase(id, appdrv.CaseCoq(id, h, rs, a), injected{History: h, At: -1}, fmt.Sprint(h.Calls), ok0 >= 3)
 	return rs, appdrv.StateString(a, nil)
+}
+
+// refusedHasNoEffect: every transaction of the history that block execution answers with the error
+// code - whoever signed it, a keyper included, whatever made it unacceptable (a structurally
+// invalid payload of any message type among them) - leaves the application state as it was,
+// apart from the record of its own (signer, nonce) pair, and emits nothing. The state is compared
+// immediately before and after the call, so an effect that a later call would undo is seen too.
+func refusedHasNoEffect(run *vh.Run, h appdrv.History, rs []appdrv.Resp) {
+	a, err := appdrv.NewApp(h.Genesis)
+	if err != nil {
+		return
+	}
+	for i, c := range h.Calls {
+		if c.Kind != "deliver" || i >= len(rs) || rs[i].Panic != "" || rs[i].Code != 1 {
+			if r := appdrv.Exec(a, c); r.Panic != "" {
+				return
+			}
+			continue
+		}
+		var hide []byte
+		if _, signer, ok := appdrv.DecodeTx(c.Tx); ok {
+			hide = signer
+		}
+		before := appdrv.StateString(a, hide)
+		r := appdrv.Exec(a, c)
+		if r.Panic != "" {
+			return
+		}
+		run.Dist["refused-deliver-checked"]++
+		if len(r.Events) != 0 {
+			run.Violate(vh.Violation{Key: "C10:refused-tx-emits-events", What: fmt.Sprintf("call %d (%s) was answered with the error code and emitted events", i, c.Note), Case: injected{History: h, At: -1}, Observed: r})
+		}
+		after := appdrv.StateString(a, hide)
+		// the one exception (C10_error_code_means_no_effect): a config vote answered with the error
+		// code may leave the vote table changed - a vote that completes a quorum for a candidate
+		// which then fails checkConfig at acceptance resets the table
+		if m, ok := appdrv.MessageOf(c.Tx); ok && m.GetBatchConfig() != nil {
+			before, after = dropVoteTable(before), dropVoteTable(after)
+		}
+		if after != before {
+			run.Violate(vh.Violation{Key: "C10:refused-tx-changes-state", What: fmt.Sprintf("call %d (%s) was answered with the error code but changed the application state", i, c.Note), Case: injected{History: h, At: -1}, Observed: []string{before, after}})
+		}
+	}
+}
+
+func dropVoteTable(st string) string {
+	var out []string
+	for _, l := range strings.Split(st, "\n") {
+		if strings.HasPrefix(l, "cvote ") || strings.HasPrefix(l, "ccand ") {
+			continue
+		}
+		out = append(out, l)
+	}
+	return strings.Join(out, "\n")
 }
 
 // twin runs the history with the injected transaction and checks the oracle.
